@@ -250,8 +250,8 @@ func propC13(c *Ctx) {
 						return
 					}
 					cnt++
-					// in the constructor, or in a function only the constructor calls (newEventID)
-					if !nreg0.Has(fn) {
+					// in the constructor, or in a function only the constructor calls (newEventID), and of the right value
+					if !nreg0.Has(fn) || !conformingGateStore(w, st, grp.name == "sighash", countFields[f]) {
 						bad = append(bad, fnName(fn)+" at "+w.Pos(st.Pos()))
 					}
 				})
@@ -885,19 +885,56 @@ func gateFields(w *World) (map[*types.Var]bool, map[*types.Var]int64) {
 			o.other++
 		})
 	}
+	// a field is identified by ONE conforming store; its other stores are judged by the who-may-write rule
 	sig, cnt := map[*types.Var]bool{}, map[*types.Var]int64{}
 	for f, o := range seen {
-		if o.other > 0 {
-			continue
-		}
-		if o.sig > 0 && o.cnt == 0 {
+		if o.sig > 0 {
 			sig[f] = true
 		}
 		if o.cnt > 0 && o.sig == 0 {
 			cnt[f] = o.j
 		}
 	}
+	// nothing conforms any more (the defect under examination may be exactly that): the names used today
+	if len(sig) == 0 {
+		if f := w.FieldOpt("dig", "Integration", "sighash"); f != nil {
+			sig[f] = true
+		}
+	}
+	if len(cnt) == 0 {
+		if f := w.FieldOpt("dig", "Integration", "numIndexed"); f != nil {
+			cnt[f] = 0
+		}
+	}
 	return sig, cnt
+}
+
+// conformingGateStore: the value stored is Event's signature hash (sig) / numIndexed() + j
+func conformingGateStore(w *World, st *ssa.Store, sig bool, j int64) bool {
+	v := stripConv(st.Val)
+	if sig {
+		call, ok := v.(*ssa.Call)
+		if !ok {
+			return false
+		}
+		cal := staticCallee(call)
+		return cal != nil && isSigHashFn(w, cal)
+	}
+	ni := w.Fn("dig", "Event.numIndexed")
+	aff := &affEnv{}
+	l := aff.Of(st.Val)
+	nAtoms := 0
+	for a, k := range l.t {
+		if k == 0 {
+			continue
+		}
+		nAtoms++
+		call, isCall := aff.vals[a].(*ssa.Call)
+		if !isCall || staticCallee(call) != ni || k != 1 {
+			return false
+		}
+	}
+	return nAtoms == 1 && l.c == j
 }
 
 func sortedVars(m map[*types.Var]bool) []*types.Var {
